@@ -51,6 +51,8 @@ Definition dispatch_core (op : string) (a : list arg) : list arg :=
   else if op =? "recoverable_serialize_compact" then recoverable_serialize_compact (B 0)
   else if op =? "recoverable_convert" then recoverable_convert (B 0)
   else if op =? "ecdsa_recover" then ecdsa_recover P (B 0) (B 1)
+  else if op =? "ecdsa_sign_alias" then ecdsa_sign P (I 0) (B 1) (B 2) (O 3)
+  else if op =? "schnorrsig_sign32_alias" then schnorrsig_sign32 P (B 0) (B 1) (O 2)
   else if op =? "schnorrsig_sign32" then schnorrsig_sign32 P (B 0) (B 1) (O 2)
   else if op =? "schnorrsig_sign_custom" then
     schnorrsig_sign_custom P (B 0) (B 1)
